@@ -45,6 +45,8 @@ func runC15(c *Ctx) {
 	checkFilesTravel(c)
 	checkRefTargets(c)
 	checkStorageUnderDetectedGitDir(c, "R15.14")
+	checkOneRefspecPerNamespace(c, "R15.15")
+	checkWhoRemovesRefs(c, "R15.16")
 	c.Doc("R15.1", "go-git mutators are called only from their wrapper in package repository; worktree/branch/tag/index/shallow mutators from nowhere")
 	c.Doc("R15.2", "ref argument of UpdateRef/CopyRef(dest)/RemoveRef outside package repository evaluates to refs/‹ns›/… or refs/remotes/‹remote›/‹ns›/…")
 	c.Doc("R15.3", "fetch refspec refs/‹p›/*:refs/remotes/‹remote›/‹p›/*, push refspec refs/‹p›/*:refs/‹p›/*; callers pass entity namespaces")
@@ -662,6 +664,8 @@ func runC14(c *Ctx) {
 	checkRebuildAndCLIRemoval(c)
 	checkRemoveUsesResolvedId(c, "R14.8")
 	checkRemovalErrorsReported(c, "R14.9")
+	checkConfigSectionRemoval(c, "R14.10")
+	checkRemoveIndexUnderLock(c, "R14.11", newLockWorld(w))
 	c.Doc("R14.1", "RemoveRef arguments evaluate to refs/‹ns›/‹id› and refs/remotes/‹remote›/‹ns›/‹id›, remote ranging over the keys of GetRemotes(); same remote-ref shape as the fetch destination and the MergeAll prefix; identity.Remove removes single full-id matches of ListRefs only")
 	c.Doc("R14.2", "SubCache.Remove/RemoveAll: entity removal, delete from cached/excerpts, lru.Remove, index removal, write() on every success path")
 	c.Doc("R14.3", "runWipe: RemoveAll → ClearUserIdentity → LocalConfig().RemoveAll(\"git-bug\") → Close → LocalStorage.RemoveAll(\".\"), backend closed on every error exit before Close")
